@@ -405,7 +405,7 @@ func runC20(t *testing.T, sci interface{}) *Outcome {
 				added2 := ctl{id: fmt.Sprintf("controller-%d", nctl), kp: w.Keypair()}
 				known := append([]ctl{added, added2}, pairings...)
 				bothAdd := op.Arg%3 == 2 // variant: both connections add a controller (two writers of the store)
-				ack1, ack2 := false, false
+				ack1, ack2, sent1 := false, false, false
 				d1, d2 := false, false
 				o.Stats["fault.concurrent_pairing_changes"]++
 				pairingsReq := func(cl *ref.Client, method byte, c ctl) bool {
@@ -423,6 +423,7 @@ func runC20(t *testing.T, sci interface{}) *Outcome {
 				s.Go("admin", func() {
 					defer func() { d1 = true }()
 					if cl, _, err := w.verified("admin", admin.id, admin.kp); err == nil {
+						sent1 = true
 						ack1 = pairingsReq(cl, 3, added)
 						cl.Conn.Close()
 					}
@@ -431,6 +432,8 @@ func runC20(t *testing.T, sci interface{}) *Outcome {
 					defer func() { d2 = true }()
 					if cl, _, err := w.verified("admin2", admin.id, admin.kp); err == nil {
 						if bothAdd {
+							// both additions are in flight at the same time
+							w.StepWhen("admin2", "wait until the other addition is on its way", func() bool { return sent1 || d1 })
 							ack2 = pairingsReq(cl, 3, added2)
 							cl.Conn.Close()
 							return
